@@ -179,3 +179,16 @@ def content_untouched(ctx, rep, rule, prop):
                   "add_content path %d: the parser must be run as parse(&LineColLookup::new(content), &mut fresh diagnostics, content) on the caller's text itself "
                   "(a stripped / normalised copy shifts every offset relative to the text the caller holds); extracted %r" % (i, [fmt_label(c[2]) for c in parse]),
                   sample={"path": i, "parse_args": [fmt_label(c[2])[:200] for c in parse]})
+
+
+def inherit_h7(ctx, rep, prop, rule="H7"):
+    """H7 re-evaluated under another property: what Parser::validate returns is what validation::validate returned, for
+    every stored file - nothing filters, de-duplicates, truncates or re-orders the results afterwards."""
+    import core as _core
+    rep.rule(rule, "inherits C12 H7 (re-evaluated here): Parser::validate returns exactly validation::validate(collect_item_keys(), all stored results) - "
+                   "no post-processing (dedup / truncate / filter / cache) between the validation rules and the caller")
+    r12 = _core.Report("C12")
+    run(ctx, r12)
+    bad = [v for v in r12.violations if v.rule == "H7"]
+    rep.check(not bad, rule, "%s|%s|validate-passes-through" % (prop, rule), bad[0].where if bad else None,
+              bad[0].message if bad else "Parser::validate = validation::validate(collect_item_keys(), all results)")
